@@ -254,7 +254,8 @@ class Vector3(Vector):
 
         vector = Vector3.as_vector3(vector, recursive=recursive)
 
-        (self, vector) = Vector3.broadcast(self, vector, recursive=recursive)
+        (self, vector) = Vector3.broadcast(self, vector, recursive=recursive,
+                                           _protected=False)
         (x0, y0, z0) = self.unit().to_scalars()
         (x , y , z ) = vector.unit().to_scalars()
 
